@@ -1,150 +1,7 @@
 #!/venv/bin/python
-"""Translator T1: the isinstance dispatch chains of Geometry3D/calc/*.py -> Lean tables.
-usage: extract_dispatch.py <repo>      (Lean source on stdout; fails closed on unknown syntax)
-
-First-match semantics over disjoint classes is modelled exactly: a branch applies to the type pair
-(A, B) iff every conjunct isinstance(var, Cls) holds with var bound to A / B (a conjunct on the
-wrong variable makes a branch dead).  Emitted per function: the cell reached by each ordered pair
-of the nine operand classes (seven geometry types + Vector + Pyramid)."""
-import ast, sys, os
-repo = sys.argv[1]
-TYPES = ['Point', 'Line', 'Plane', 'Segment', 'HalfLine', 'ConvexPolygon', 'ConvexPolyhedron', 'Vector', 'Pyramid']
-LEAN_TY = {'Point': 'point', 'Line': 'line', 'Plane': 'plane', 'Segment': 'seg', 'HalfLine': 'halfline',
-           'ConvexPolygon': 'polygon', 'ConvexPolyhedron': 'polyhedron', 'Vector': 'vector', 'Pyramid': 'pyramid'}
-HANDLERS = ['inter_point_point', 'inter_point_line', 'inter_point_plane', 'inter_point_segment', 'inter_point_halfline',
-            'inter_point_convexpolygon', 'inter_point_convexpolyhedron', 'inter_line_line', 'inter_line_plane',
-            'inter_line_segment', 'inter_line_halfline', 'inter_line_convexpolygon', 'inter_line_convexpolyhedron',
-            'inter_plane_plane', 'inter_plane_segment', 'inter_plane_halfline', 'inter_plane_convexpolygon',
-            'inter_plane_convexpolyhedron', 'inter_segment_segment', 'inter_segment_halfline',
-            'inter_segment_convexpolygon', 'inter_segment_convexpolyhedron', 'inter_halfline_halfline',
-            'inter_convexpolygon_halfline', 'inter_convexpolyhedron_halfline', 'inter_convexpolygon_convexpolygon',
-            'inter_convexpolygon_convexPolyhedron', 'inter_convexpolyhedron_convexpolyhedron']
-
-
-def chain(fn):
-    node = next(n for n in fn.body if isinstance(n, ast.If))
-    out = []
-    while True:
-        out.append((node.test, node.body))
-        if len(node.orelse) == 1 and isinstance(node.orelse[0], ast.If):
-            node = node.orelse[0]
-        else:
-            out.append((None, node.orelse))
-            break
-    return out
-
-
-def isinstance_conj(test):
-    items = test.values if isinstance(test, ast.BoolOp) and isinstance(test.op, ast.And) else [test]
-    res = []
-    for it in items:
-        if (isinstance(it, ast.Call) and getattr(it.func, 'id', None) == 'isinstance' and len(it.args) == 2
-                and isinstance(it.args[0], ast.Name) and isinstance(it.args[1], ast.Name)):
-            res.append((it.args[0].id, it.args[1].id))
-        else:
-            return None
-    return res
-
-
-def action(body, fname, params):
-    if not body:
-        return ('fallthrough',)
-    last = body[-1]
-    if isinstance(last, ast.Return):
-        v = last.value
-        if v is None or (isinstance(v, ast.Constant) and v.value is None):
-            return ('retNone',)
-        if isinstance(v, ast.Call) and isinstance(v.func, ast.Name):
-            args = [ast.unparse(a) for a in v.args]
-            if len(body) == 1 and v.func.id == fname and args == list(reversed(params)):
-                return ('swap',)
-            if len(body) == 1 and args in (params, list(reversed(params))):
-                return ('call', v.func.id, args == list(reversed(params)))
-            # returning a freshly constructed exception instead of raising it
-            if v.func.id.endswith('Error') or v.func.id.endswith('Exception'):
-                return ('retExc', v.func.id)
-        return ('compute',)
-    if isinstance(last, ast.Raise):
-        exc = last.exc
-        name = exc.func.id if isinstance(exc, ast.Call) and isinstance(exc.func, ast.Name) else getattr(exc, 'id', 'unknown')
-        return ('raise', name)
-    return ('fallthrough',)
-
-
-def extract(path, fname):
-    mod = ast.parse(open(os.path.join(repo, path)).read())
-    fn = next(n for n in mod.body if isinstance(n, ast.FunctionDef) and n.name == fname)
-    params = [a.arg for a in fn.args.args]
-    branches = []
-    for test, body in chain(fn):
-        if test is None:
-            branches.append(('else', action(body, fname, params)))
-            continue
-        c = isinstance_conj(test)
-        if c is None:
-            branches.append(('guard', ast.unparse(test), action(body, fname, params)))
-        else:
-            branches.append(('types', c, action(body, fname, params)))
-    return params, branches
-
-
-def cell(branches, params, tys):
-    env = dict(zip(params, tys))
-    for b in branches:
-        if b[0] == 'types':
-            if all(env.get(v) == cls for v, cls in b[1]):
-                return b[2]
-        elif b[0] == 'else':
-            return b[1]
-    return ('fallthrough',)
-
-
-def rhs(act):
-    if act[0] == 'call':
-        h = act[1]
-        hn = ('.' + h) if h in HANDLERS else '(.unknown "%s")' % h
-        return '.call %s %s' % (hn, 'true' if act[2] else 'false')
-    if act[0] == 'swap':
-        return '.swap'
-    if act[0] == 'compute':
-        return '.compute'
-    if act[0] == 'raise':
-        return '.raise "%s"' % act[1]
-    if act[0] == 'retNone':
-        return '.retNone'
-    if act[0] == 'retExc':
-        return '.retExc "%s"' % act[1]
-    return '.fallthrough'
-
-
-out = ['import G3D.Model.Dispatch',
-       '/-! GENERATED by tools/extract_dispatch.py from Geometry3D/calc/{intersection,distance,angle,volume}.py — do not edit -/', 'namespace G3D.Extracted', 'open G3D.Dispatch', '']
-params, inter = extract('Geometry3D/calc/intersection.py', 'intersection')
-guards = [b for b in inter if b[0] == 'guard']
-first_is_none_guard = (inter[0][0] == 'guard' and inter[0][2] == ('retNone',)
-                       and inter[0][1].replace(' ', '') in ('aisNoneorbisNone', 'bisNoneoraisNone'))
-out.append('/-- the chain starts with `if a is None or b is None: return None` -/')
-out.append('def interNoneGuard : Bool := %s' % ('true' if first_is_none_guard else 'false'))
-out.append('def interOtherGuards : Nat := %d' % (len(guards) - (1 if first_is_none_guard else 0)))
-out.append('')
-
-
-def table(name, branches, params, binary=True):
-    out.append('def %s : Ty → Ty → Cell' % name)
-    for A in TYPES:
-        for B in TYPES:
-            out.append('  | .%s, .%s => %s' % (LEAN_TY[A], LEAN_TY[B], rhs(cell(branches, params, [A, B]))))
-    out.append('')
-
-
-table('interCell', inter, params)
-for fname, path in [('distance', 'Geometry3D/calc/distance.py'), ('angle', 'Geometry3D/calc/angle.py'),
-                    ('parallel', 'Geometry3D/calc/angle.py'), ('orthogonal', 'Geometry3D/calc/angle.py')]:
-    p, br = extract(path, fname)
-    table(fname + 'Cell', br, p)
-p, br = extract('Geometry3D/calc/volume.py', 'volume')
-out.append('def volumeCell : Ty → Cell')
-for A in TYPES:
-    out.append('  | .%s => %s' % (LEAN_TY[A], rhs(cell(br, p, [A]))))
-out += ['', 'end G3D.Extracted', '']
-sys.stdout.write('\n'.join(out))
+"""Translator T1 (intersection): the isinstance dispatch chain(s) -> Lean table(s); engine in tools/dispatch_engine.py.
+usage: extract_dispatch.py <repo>      (Lean source on stdout; fails closed on unknown syntax)"""
+import os, sys
+sys.path.insert(0, os.path.dirname(os.path.abspath(__file__)))
+import dispatch_engine
+dispatch_engine.emit('inter', sys.argv[1])
